@@ -121,6 +121,24 @@ def cond_sym(G0):
     return float(w[-1] / w[0])
 
 
+def cond_equilibrated(G0):
+    """condition number of D^-1 G0 D^-1, D = sqrt(diag G0).  The Cholesky-based algorithms (and their derivatives) are
+    covariant under a rescaling of the operators, G -> D G D, v -> D^-1 v, so what governs their rounding errors is the
+    conditioning of the equilibrated matrix (van der Sluis / Demmel), not that of G0 itself."""
+    S = 0.5 * (G0 + G0.T)
+    d = np.diag(S)
+    if np.any(d <= 0):
+        return np.inf
+    s = 1.0 / np.sqrt(d)
+    return cond_sym(S * s[:, None] * s[None, :])
+
+
+def cond_for_bounds(G0):
+    """the condition number entering the calibrated error bounds below: equilibrated condition number plus an additive
+    floor (for an almost perfectly conditioned pencil the errors are a few eps, not eps * 1.0)."""
+    return cond_equilibrated(G0) + 10.0
+
+
 def err_eigenvalue(kappa, lam_t, n):
     """relative rounding error to be expected for lambda_n(t) obtained from a Cholesky-reduced pencil."""
     return EPS * kappa * float(np.max(lam_t)) / float(lam_t[n])
@@ -152,11 +170,16 @@ def rayleigh(v, Gt, G0):
 
 
 def residual(v, lam, Gt, G0):
-    """max-norm of G(t) v - lam G(t0) v relative to ||G(t)||_2 ||v||_2 + |lam| ||G0||_2 ||v||_2."""
+    """norm of G(t) v - lam G(t0) v in the metric that is invariant under a rescaling of the operators:
+    with d_i = sqrt(G0_ii), || r_i / d_i ||_2 relative to (||D^-1 G(t) D^-1||_2 + |lam| ||D^-1 G0 D^-1||_2) ||D v||_2."""
     v = np.asarray(v, dtype=float)
-    r = Gt @ v - lam * (G0 @ v)
-    den = (np.linalg.norm(Gt, 2) + abs(lam) * np.linalg.norm(G0, 2)) * np.linalg.norm(v)
-    return float(np.max(np.abs(r)) / den) if den > 0 else np.inf
+    d = np.sqrt(np.abs(np.diag(G0)))
+    if np.any(d == 0):
+        return np.inf
+    r = (Gt @ v - lam * (G0 @ v)) / d
+    s = 1.0 / d
+    den = (np.linalg.norm(Gt * s[:, None] * s[None, :], 2) + abs(lam) * np.linalg.norm(G0 * s[:, None] * s[None, :], 2)) * np.linalg.norm(v * d)
+    return float(np.linalg.norm(r) / den) if den > 0 else np.inf
 
 
 def pencil_eigenvalues(Gt, G0):
